@@ -32,5 +32,5 @@ key selfsigned
 openssl req -x509 -new -key selfsigned.key.pem -sha256 -subj "/CN=sim printer selfsigned" -not_before 20200101000000Z -not_after 21250101000000Z \
     -addext "basicConstraints=critical,CA:FALSE" -addext "keyUsage=critical,digitalSignature" -addext "extendedKeyUsage=serverAuth" -addext "subjectAltName=$GOOD" -out selfsigned.cert.pem
 openssl x509 -in selfsigned.cert.pem -outform DER -out selfsigned.cert.der
-rm -f *.srl testca.key.* otherca.key.* unrelated.key.*
+rm -f *.srl otherca.key.* unrelated.key.* testca.key.der   # testca.key.pem is kept: C12 mints a just-expired leaf at run time
 ls -1
